@@ -72,8 +72,82 @@ def run_c14(tier, seed, res):
     }
 
 
+
+# ------------------------------------------------------------------ C02
+def run_c02(tier, seed, res):
+    nmax = sz(tier, 8, 11)
+    E.run_workload(res, "mon", "C02x", 8 * nmax, tier, seed, chunks=8 * nmax)
+    E.run_workload(res, "mon", "C02r", sz(tier, 40000, 2000000), tier, seed)
+    return {
+        "rule": "exhaustive part: every label vector in {boundary, no boundary, unknown}^(n-1) for n <= %d x 4 text kinds x with/without "
+                "tags (case = one (n, kind, tags) combination); random part: n <= 60 with unknown density up to 60%%; tokens "
+                "(start, end, surface, tags) from iter_tokens and the tokenized writer are compared with the reference partition; "
+                "non-trivial iff n >= 2; distinct = distinct (text, labels, tags)" % nmax,
+        "required": ["vectors_with_2+_consecutive_skipped_segments", "vectors_with_skipped_first_segment",
+                     "vectors_with_skipped_final_segment", "vectors_without_unknown", "exhaustive_label_vectors"],
+        "exhaustive": True,
+        "extra": {"exhaustive_scope": "all 3^(n-1) label vectors for n = 1..%d (the random part is sampled)" % nmax},
+    }
+
+
+# ------------------------------------------------------------------ C03
+def run_c03(tier, seed, res):
+    E.run_workload(res, "mon", "C03", sz(tier, 60000, 1500000), tier, seed)
+    maxlen = sz(tier, 5, 7)
+    n = sum(7 ** l for l in range(maxlen + 1))
+    E.run_workload(res, "mon", "C03x", n, tier, seed)
+    return {
+        "rule": "case = fully segmented sentence over an alphabet dense in space, slash, backslash and multi-byte characters with tags "
+                "(incl. interior absent ones) on its tokens, built through from_raw/boundaries_mut/reset_tags/tags_mut; checked: written "
+                "text is valid UTF-8 and equals the reference writer, the reference parser and the library parser both recover the sentence; "
+                "idempotence on random strings, single-edit mutations of written strings and ALL strings of length <= %d over 7 symbols; "
+                "distinct = distinct sentences" % maxlen,
+        "required": ["sentences_with_escape_worthy_char_in_text", "sentences_with_tags", "sentences_with_interior_absent_tag",
+                     "sentences_with_space_inside_a_tag", "sentences_with_slash_inside_a_tag",
+                     "sentences_with_backslash_inside_a_tag", "sentences_with_4_byte_char", "idempotence_inputs_accepted",
+                     "idempotence_inputs_rejected", "exhaustive_strings"],
+    }
+
+
+# ------------------------------------------------------------------ C04
+def run_c04(tier, seed, res):
+    E.run_workload(res, "mon", "C04", sz(tier, 60000, 1500000), tier, seed)
+    return {
+        "rule": "case = sentence with all three labels and tags on any character, tags drawn from an alphabet containing / - | space and "
+                "backslash; the written partial-annotation text is parsed by the reference parser and by the library and must give "
+                "back text, labels and tags (modulo trailing absent tags); distinct = distinct sentences",
+        "required": ["sentences_with_tags", "sentences_with_unknown_boundary", "sentences_with_space_inside_a_tag",
+                     "sentences_with_slash_inside_a_tag", "sentences_with_backslash_inside_a_tag",
+                     "sentences_with_dash_inside_a_tag", "sentences_with_pipe_inside_a_tag", "sentences_with_interior_absent_tag"],
+    }
+
+
+# ------------------------------------------------------------------ C05
+def run_c05(tier, seed, res):
+    maxlen = sz(tier, 4, 5)
+    n = sum(9 ** l for l in range(maxlen + 1))
+    E.run_workload(res, "mon", "C05x", n, tier, seed)
+    E.run_workload(res, "mon", "C05r", sz(tier, 40000, 1000000), tier, seed)
+    E.run_workload(res, "mon", "C05h", sz(tier, 30000, 800000), tier, seed)
+    return {
+        "rule": "every string of length <= %d over {a, hiragana a, 4-byte kanji, space, /, backslash, -, |, NUL} and random hostile / valid / "
+                "single-edit-mutated strings go through the three constructors and through the three updates on a used sentence; "
+                "Ok results are compared with the reference parsers (text, labels, tags modulo trailing absent, types, lengths, no scores, "
+                "writers and iterator usable), failed updates with Sentence::default(); histories of 1..6 update_*/reset_tags calls are "
+                "compared step by step with a fresh object; distinct = distinct input strings / histories" % maxlen,
+        "required": ["raw_accepted", "raw_rejected", "tokenized_accepted", "tokenized_rejected", "partial_annotation_accepted",
+                     "partial_annotation_rejected", "history_steps", "exhaustive_strings"],
+        "exhaustive": True,
+        "extra": {"exhaustive_scope": "all strings of length <= %d over the 9-symbol alphabet x 3 parsers (random strings and histories are sampled)" % maxlen},
+    }
+
+
 PROPS = {
     "C01": {"level": "exploration", "run": run_c01},
+    "C02": {"level": "exploration", "run": run_c02},
+    "C03": {"level": "exploration", "run": run_c03},
+    "C04": {"level": "exploration", "run": run_c04},
+    "C05": {"level": "exploration", "run": run_c05},
     "C06": {"level": "exploration", "run": run_c06},
     "C14": {"level": "exploration", "run": run_c14},
 }
